@@ -113,6 +113,7 @@ inductive Op
   | stopWatches (n : Nat) (ws : List Wid)
   | getWatches (n : Nat)
   | gc (n : Nat) (xrs : List XR)        -- GarbageCollectWatchesNow; xrs = what its List of the XRs returns
+                                        -- (one call; the GarbageCollector object lives across calls and keeps nothing)
   | removeInformer (g : Nat)
   deriving DecidableEq, Repr
 
@@ -332,8 +333,21 @@ def handle (s : Sys) (g : Nat) : Nat :=
   | some h => h
   | none => s.nextGen
 
+/-- The class of error a failing call returns (apimachinery's NotFound / Conflict / AlreadyExists /
+Invalid / Forbidden / TooManyRequests, a RESTMapper NoKindMatch, a transport error that is
+Temporary(), a context deadline or cancellation, anything else). No function of engine.go,
+source.go, cache.go or watch.go inspects the error it gets: it wraps and returns it. `next` below
+therefore never reads `Choice.cls`; it is part of every step's choice so that "for every fault"
+in the theorems reads "for every fault of every class" (`error_class_irrelevant`), and the
+correspondence harness injects each class at each call. -/
+inductive ErrClass
+  | generic | notFound | conflict | alreadyExists | invalid | forbidden | noKindMatch
+  | transportTemporary | deadlineExceeded | cancelled | tooManyRequests
+  deriving DecidableEq, Repr, Inhabited
+
 structure Choice where
   fault : Bool := false   -- the call that leaves the engine fails
+  cls : ErrClass := .generic   -- ... with an error of this class
   pick : Wid := default   -- Go map iteration: which source `range c.sources` yields next
   perm : List Wid := []   -- Go map iteration: the order in which GetWatches listed the watches the collector stops
   deriving Repr
